@@ -1,5 +1,6 @@
 import EduceModel.Expand
 import EduceModel.Props.C16
+import EduceModel.Props.C18
 /-
   C15 — each trait's impl depends only on that trait's own attributes.
 
@@ -97,5 +98,211 @@ theorem copy_handler_consults_clone_only (c c' : Ctx) (hd : c.d = c'.d) (hclone 
       = markerHandler c' m .copy .clone "::core::marker::Copy" "::core::clone::Clone" := by
   unfold markerHandler
   simp only [hclone, hd, variantNoAttr, hscan]
+
+/-! ### window (1): the set of educed traits
+
+Through `traits` a handler can see (a) whether the traits *named in field / variant attributes* are educed
+(validation) and (b) whether its documented partner is. Everything else about the set is invisible. -/
+
+open Educe.Props.C18 in
+section
+/-- Two sets of educed traits look the same from the metas of one attribute position. -/
+def TraitsAgreeOn (F : Features) (tr₁ tr₂ : TraitId → Bool) (attrs : List Attribute) : Prop :=
+  ∀ a ∈ attrs, ∀ ms, a.metas = some ms → ∀ m ∈ ms, ∀ t, traitOf F m = some t → tr₁ t = tr₂ t
+
+theorem scanMetas_traits {α : Type} (F : Features) (tr₁ tr₂ mine : TraitId → Bool) (build : TraitMeta → Res α)
+    (ms : List TraitMeta) (out : Option α) (h : ∀ m ∈ ms, ∀ t, traitOf F m = some t → tr₁ t = tr₂ t) :
+    scanMetas F tr₁ mine build ms out = scanMetas F tr₂ mine build ms out := by
+  induction ms generalizing out with
+  | nil => rfl
+  | cons m ms ih =>
+    have ih' := fun o => ih o (fun x hx => h x (by simp [hx]))
+    unfold scanMetas
+    cases ht : traitOf F m with
+    | none => rfl
+    | some t =>
+      have := h m (by simp) t ht
+      simp only [this, ih']
+
+theorem scanAttrs_traits {α : Type} (F : Features) (tr₁ tr₂ mine : TraitId → Bool) (build : TraitMeta → Res α)
+    (attrs : List Attribute) (out : Option α) (h : TraitsAgreeOn F tr₁ tr₂ attrs) :
+    scanAttrs F tr₁ mine build attrs out = scanAttrs F tr₂ mine build attrs out := by
+  induction attrs generalizing out with
+  | nil => rfl
+  | cons a as ih =>
+    have ih' := fun o => ih o (fun x hx => h x (by simp [hx]))
+    unfold scanAttrs
+    split
+    · split
+      · rfl
+      · rename_i ms hms
+        rw [scanMetas_traits F tr₁ tr₂ mine build ms out (h a (by simp) ms hms)]
+        simp only [ih']
+    · exact ih' _
+
+theorem fromAttrs_traits {α : Type} {F : Features} {tr₁ tr₂ mine : TraitId → Bool} {build : TraitMeta → Res α} {dflt : α}
+    {attrs : List Attribute} (h : TraitsAgreeOn F tr₁ tr₂ attrs) :
+    fromAttrs F tr₁ mine build dflt attrs = fromAttrs F tr₂ mine build dflt attrs := by
+  unfold fromAttrs
+  rw [scanAttrs_traits F tr₁ tr₂ mine build attrs none h]
+
+/-- the trait set of the context replaced -/
+def withTraits (c : Ctx) (tr : TraitId → Bool) : Ctx := { c with traits := tr }
+
+structure InputAgree (F : Features) (tr₁ tr₂ : TraitId → Bool) (d : DeriveInput) : Prop where
+  var : ∀ v ∈ d.variants, TraitsAgreeOn F tr₁ tr₂ v.attrs
+  fld : ∀ v ∈ d.variants, ∀ f ∈ v.fields, TraitsAgreeOn F tr₁ tr₂ f.attrs
+
+theorem InputAgree.hd {F : Features} {tr₁ tr₂ : TraitId → Bool} {d : DeriveInput} (H : InputAgree F tr₁ tr₂ d) :
+    ∀ f ∈ (d.variants.headD {}).fields, TraitsAgreeOn F tr₁ tr₂ f.attrs := by
+  intro f hf
+  cases hd : d.variants with
+  | nil => rw [hd] at hf; simp at hf
+  | cons v vs => rw [hd] at hf; exact H.fld v (by rw [hd]; simp) f (by simpa using hf)
+
+macro "agdisch" H:term : tactic =>
+  `(tactic| first | assumption | (apply InputAgree.fld $H <;> assumption) | (apply InputAgree.var $H; assumption) | (apply InputAgree.hd $H; assumption))
+
+theorem variantNoAttr_traits {c : Ctx} {tr₂ mine : TraitId → Bool} {v : Variant} (h : TraitsAgreeOn c.F c.traits tr₂ v.attrs) :
+    variantNoAttr c mine v = variantNoAttr (withTraits c tr₂) mine v := by
+  unfold variantNoAttr
+  rw [fromAttrs_traits h]; rfl
+
+/-- **Debug** (no coupling): the impl is the same under any two trait sets that agree on the traits named in
+    the field / variant attributes. -/
+theorem debugHandler_traits {c : Ctx} {tr₂ : TraitId → Bool} {m : TraitMeta} (H : InputAgree c.F c.traits tr₂ c.d) :
+    debugHandler c m = debugHandler (withTraits c tr₂) m := by
+  unfold debugHandler
+  simp (disch := agdisch H) only [fromAttrs_traits (tr₁ := c.traits) (tr₂ := tr₂)]
+  rfl
+
+/-- **Hash / PartialEq** (`eqLikeHandler`): besides the agreement on named traits only the companion's membership matters. -/
+theorem eqLikeHandler_traits {c : Ctx} {tr₂ : TraitId → Bool} {m : TraitMeta} {me mine tp} {comp : Option (TraitId × String)}
+    (H : InputAgree c.F c.traits tr₂ c.d) (hc : ∀ p, comp = some p → c.traits p.1 = tr₂ p.1) :
+    eqLikeHandler c m me mine tp comp = eqLikeHandler (withTraits c tr₂) m me mine tp comp := by
+  have hw : ∀ primary, withCompanion primary comp c.traits = withCompanion primary comp tr₂ := by
+    intro primary
+    unfold withCompanion
+    cases comp with
+    | none => rfl
+    | some p => simp only [hc p rfl]
+  unfold eqLikeHandler
+  simp (disch := agdisch H) only [fromAttrs_traits (tr₁ := c.traits) (tr₂ := tr₂), variantNoAttr_traits (c := c) (tr₂ := tr₂), hw]
+  rfl
+
+theorem ordLikeHandler_traits {c : Ctx} {tr₂ : TraitId → Bool} {m : TraitMeta} {me mine tp su co}
+    (H : InputAgree c.F c.traits tr₂ c.d) :
+    ordLikeHandler c m me mine tp su co = ordLikeHandler (withTraits c tr₂) m me mine tp su co := by
+  unfold ordLikeHandler
+  simp (disch := agdisch H) only [fromAttrs_traits (tr₁ := c.traits) (tr₂ := tr₂), variantNoAttr_traits (c := c) (tr₂ := tr₂)]
+  rfl
+
+theorem derefHandler_traits {c : Ctx} {tr₂ : TraitId → Bool} {m : TraitMeta} {me} (H : InputAgree c.F c.traits tr₂ c.d) :
+    derefHandler c m me = derefHandler (withTraits c tr₂) m me := by
+  unfold derefHandler
+  simp (disch := agdisch H) only [fromAttrs_traits (tr₁ := c.traits) (tr₂ := tr₂)]
+  rfl
+
+theorem cloneHandler_traits {c : Ctx} {tr₂ : TraitId → Bool} {m : TraitMeta} (H : InputAgree c.F c.traits tr₂ c.d)
+    (hcopy : c.traits .copy = tr₂ .copy) : cloneHandler c m = cloneHandler (withTraits c tr₂) m := by
+  unfold cloneHandler
+  simp (disch := agdisch H) only [fromAttrs_traits (tr₁ := c.traits) (tr₂ := tr₂), variantNoAttr_traits (c := c) (tr₂ := tr₂), hcopy]
+  rfl
+
+theorem markerHandler_traits {c : Ctx} {tr₂ : TraitId → Bool} {m : TraitMeta} {me p b s} (H : InputAgree c.F c.traits tr₂ c.d)
+    (hp : c.traits p = tr₂ p) : markerHandler c m me p b s = markerHandler (withTraits c tr₂) m me p b s := by
+  unfold markerHandler
+  simp (disch := agdisch H) only [fromAttrs_traits (tr₁ := c.traits) (tr₂ := tr₂), variantNoAttr_traits (c := c) (tr₂ := tr₂), hp]
+  rfl
+
+theorem collectMetas_traits (F : Features) (tr₁ tr₂ : TraitId → Bool) (t0 : TraitId) (ms acc : List TraitMeta)
+    (h : ∀ m ∈ ms, ∀ t, traitOf F m = some t → tr₁ t = tr₂ t) :
+    collectMetas F tr₁ t0 ms acc = collectMetas F tr₂ t0 ms acc := by
+  induction ms generalizing acc with
+  | nil => rfl
+  | cons m ms ih =>
+    have ih' := fun o => ih o (fun x hx => h x (by simp [hx]))
+    unfold collectMetas
+    cases ht : traitOf F m with
+    | none => rfl
+    | some t =>
+      have := h m (by simp) t ht
+      simp only [this, ih']
+
+theorem collectAttrs_traits {F : Features} {tr₁ tr₂ : TraitId → Bool} {t0 : TraitId} {attrs : List Attribute} {acc : List TraitMeta}
+    (h : TraitsAgreeOn F tr₁ tr₂ attrs) : collectAttrs F tr₁ t0 attrs acc = collectAttrs F tr₂ t0 attrs acc := by
+  induction attrs generalizing acc with
+  | nil => rfl
+  | cons a as ih =>
+    have ih' := fun o => @ih o (fun x hx => h x (by simp [hx]))
+    unfold collectAttrs
+    split
+    · split
+      · rfl
+      · rename_i ms hms
+        rw [collectMetas_traits F tr₁ tr₂ t0 ms acc (h a (by simp) ms hms)]
+        simp only [ih']
+    · exact ih' _
+
+theorem intoHandler_traits {c : Ctx} {tr₂ : TraitId → Bool} {ms : List TraitMeta} (H : InputAgree c.F c.traits tr₂ c.d) :
+    intoHandler c ms = intoHandler (withTraits c tr₂) ms := by
+  unfold intoHandler
+  simp (disch := agdisch H) only [collectAttrs_traits (tr₁ := c.traits) (tr₂ := tr₂)]
+  rfl
+
+theorem defaultHandler_traits {c : Ctx} {tr₂ : TraitId → Bool} {m : TraitMeta} (H : InputAgree c.F c.traits tr₂ c.d) :
+    defaultHandler c m = defaultHandler (withTraits c tr₂) m := by
+  unfold defaultHandler
+  have e : defaultPickVariant
+      (fun flag expr f => do
+        let a ← fromAttrs c.F c.traits (fun x => x == TraitId.default) (defaultFieldFromMeta flag expr f.shape) {} f.attrs
+        pure (f, a))
+      (fun flag v => fromAttrs c.F c.traits (fun x => x == TraitId.default)
+        (defaultTypeFromMeta { flag := flag, new := false, expression := false, bound := false }) {} v.attrs) c.d.variants =
+    defaultPickVariant
+      (fun flag expr f => do
+        let a ← fromAttrs c.F tr₂ (fun x => x == TraitId.default) (defaultFieldFromMeta flag expr f.shape) {} f.attrs
+        pure (f, a))
+      (fun flag v => fromAttrs c.F tr₂ (fun x => x == TraitId.default)
+        (defaultTypeFromMeta { flag := flag, new := false, expression := false, bound := false }) {} v.attrs) c.d.variants := by
+    apply defaultPickVariant_congr
+    · intro fl v hv; rw [fromAttrs_traits (H.var v hv)]
+    · intro a b v hv f hf; rw [fromAttrs_traits (H.fld v hv f hf)]
+  simp (disch := agdisch H) only [fromAttrs_traits (tr₁ := c.traits) (tr₂ := tr₂), e]
+  rfl
+
+/-- **C15 at the level of the whole handler.** Replace the set of educed traits by any other set that (a) agrees
+    with it on every trait named in a field or variant attribute (so the same attributes stay valid) and (b)
+    agrees on the trait's documented partner: the items generated for the trait are the same. In particular
+    educing or dropping a trait that no field or variant attribute mentions, and that is not the partner, changes
+    nothing. -/
+theorem handlerFor_depends_on_partner_only {c : Ctx} {tr₂ : TraitId → Bool} {t : TraitId} {ms : List TraitMeta}
+    (H : InputAgree c.F c.traits tr₂ c.d)
+    (hcopy : c.traits .copy = tr₂ .copy) (hclone : c.traits .clone = tr₂ .clone)
+    (heq : c.traits .eq = tr₂ .eq) (hpeq : c.traits .partialEq = tr₂ .partialEq)
+    (hord : c.traits .ord = tr₂ .ord) (hpord : c.traits .partialOrd = tr₂ .partialOrd) :
+    handlerFor c t ms = handlerFor (withTraits c tr₂) t ms := by
+  unfold handlerFor
+  cases ms with
+  | nil => rfl
+  | cons m rest =>
+    cases t <;> simp only [withTraits, hord, hpord, heq]
+    · exact debugHandler_traits H
+    · exact cloneHandler_traits H hcopy
+    · exact markerHandler_traits H hclone
+    · exact eqLikeHandler_traits H (by intro p hp; cases hp; exact heq)
+    · exact markerHandler_traits H hpeq
+    · by_cases h : tr₂ .ord = true
+      · simp only [h, if_true]
+      · simp only [h, Bool.false_eq_true, if_false]
+        exact ordLikeHandler_traits H
+    · exact ordLikeHandler_traits H
+    · exact eqLikeHandler_traits H (by intro p hp; cases hp)
+    · exact defaultHandler_traits H
+    · exact derefHandler_traits H
+    · exact derefHandler_traits H
+    · exact intoHandler_traits H
+
+end
 
 end Educe.Attr
